@@ -357,8 +357,61 @@ def run(ctx):
                 ctx.violation('%s:%s:%s:%s' % (flag, pos, tk, sp), what,
                               {'sql': sql, 'catalog': c, 'fetches': r['fetch_sql'], 'applies': r['applies'],
                                'detail': j[flag]}, pin=(key, flag))
+    # ---- time-series joins (planned by another module): the data table of every form, in every letter case, is fetched from
+    # its own integration; the facts are judged with the same Routing obligations, read directly (two tables, one model)
+    from mindsdb_sql import parse_sql as _ps
+    from mindsdb_sql.planner import plan_query as _pq
+    ts_cat = dict(integrations=['int1', 'int2'], default_namespace='mindsdb',
+                  predictor_metadata=[{'name': 'tsm', 'integration_name': 'mindsdb', 'timeseries': True, 'window': 2, 'order_by_column': 'd',
+                                       'group_by_columns': []},
+                                      {'name': 'tsg', 'integration_name': 'proj', 'timeseries': True, 'window': 2, 'order_by_column': 'd',
+                                       'group_by_columns': ['g']}])
+    n_ts = 0
+    for form in ('select * from {T} as ta join {M} as tb where ta.d > latest',
+                 'select * from {M} as tb join {T} as ta where ta.d > 5',
+                 'insert into int2.out select * from (select * from {T}) as ta join {M} as tb where ta.d > latest',
+                 'insert into int2.out select * from (select * from {T} where g = 1) as ta join {M} as tb where ta.d > latest limit 3',
+                 'create table int2.out (select * from (select * from {T}) as ta join {M} as tb where ta.d > latest)',
+                 'select * from (select * from {T}) as ta join {M} as tb where ta.d > latest'):
+        for tsp in ('int1.t', 'INT1.t', 'Int1.t'):
+            for msp in ('mindsdb.tsm', 'MINDSDB.tsm', 'proj.tsg', 'Proj.tsg'):
+                sql_ = form.replace('{T}', tsp).replace('{M}', msp)
+                try:
+                    plan_ = _pq(_ps(sql_, 'mindsdb'), **copy.deepcopy(ts_cat))
+                except Exception as e:   # noqa
+                    if type(e).__name__ not in ('PlanningException', 'NotImplementedError'):
+                        ctx.violation('planning-internal-error:ts:%s' % type(e).__name__, 'planning a time-series join failed internally', {'sql': sql_})
+                    continue
+                n_ts += 1
+                fetches_ = []
+
+                def _steps(lst):
+                    for s_ in lst:
+                        yield s_
+                        if getattr(s_, 'steps', None):
+                            yield from _steps(s_.steps)
+                        sub_ = getattr(s_, 'step', None)
+                        if sub_ is not None:
+                            yield from _steps([sub_])
+                for s_ in _steps(plan_.steps):
+                    if type(s_).__name__ == 'FetchDataframeStep':
+                        fetches_.append((str(s_.integration).lower(), str(s_.query).replace('\n', ' ')))
+                applies_ = [(str(s_.namespace).lower(), [str(p_) for p_ in s_.predictor.parts]) for s_ in _steps(plan_.steps)
+                            if type(s_).__name__ == 'ApplyTimeseriesPredictorStep']
+                want_ns = msp.split('.')[0].lower()
+                case_ = 'as-written' if tsp == 'int1.t' and msp.split('.')[0].islower() else 'other-case'
+                if not fetches_ or any(i_ != 'int1' for i_, _q in fetches_):
+                    ctx.violation('foreign:ts-join:%s' % case_, 'the data table of a time-series join is not fetched from its own integration',
+                                  {'sql': sql_, 'fetches': fetches_})
+                if any('int1.' in q_.lower() for _i, q_ in fetches_):
+                    ctx.violation('colqualified:ts-join:%s' % case_, 'a fetch of a time-series join still carries the integration qualifier',
+                                  {'sql': sql_, 'fetches': fetches_})
+                if len(applies_) != 1 or applies_[0][0] != want_ns or applies_[0][1][-1].lower() != msp.split('.')[1]:
+                    ctx.violation('notapplied:ts-join:%s' % case_, 'the time-series model is not applied exactly once in its own project',
+                                  {'sql': sql_, 'applies': applies_})
+    ctx.cov['time_series_join_routings'] = n_ts
     ctx.cov['traces_validated_against_impl'] = len(traces)
-    ctx.cov['evaluations'] = len(work)
+    ctx.cov['evaluations'] = len(work) + n_ts
     ctx.cov['planning_status'] = status
     ctx.sample({'sql': tmeta[0][0][4], 'catalog': tmeta[0][0][3], 'fetches': tmeta[0][1]['fetch_sql']})
     ctx.sample({'sql': tmeta[-1][0][4], 'fetches': tmeta[-1][1]['fetch_sql'], 'applies': tmeta[-1][1]['applies']})
